@@ -66,6 +66,8 @@ impl NodeDrive {
             }
         };
         if let Ok(entries) = read_dir(get_dir_name()) {
+            #[cfg(nundb_verif)]
+            let entries = crate::verif_hooks::order_dir_entries(entries.collect());
             for entry in entries {
                 NodeDrive::load_one_db_from_disk(dbs, entry);
             }
